@@ -26,7 +26,8 @@ pub static PROP: Prop = Prop {
     ],
     run,
     replay,
-    both_profiles: super::thorough_both,
+    // index arithmetic can panic only with overflow checks on: the grid also runs in the dbg profile in the quick tier
+    both_profiles: super::always_both,
 };
 
 /// One case: an expression over the variables in `binds`, plus its literal twin.
@@ -495,7 +496,8 @@ fn run(opts: &Opts, acc: &mut Acc) {
     });
     acc.mark_exhaustive("grid", "index ranges, duplicate-key entry sequences, in/+/size over one value of every type");
     let n = match (opts.tier, opts.is_dbg()) {
-        (crate::engine::Tier::Quick, _) => 400_000,
+        (crate::engine::Tier::Quick, false) => 400_000,
+        (crate::engine::Tier::Quick, true) => 30_000,
         (_, false) => 3_000_000,
         (_, true) => 300_000,
     };
